@@ -198,6 +198,10 @@ def m_matches(c, binp, tier, kind="match"):
     # near-collision field values (one byte apart, one character longer, numeric regions sharing digits): all 250 000 pairs
     c.add_model(run_model("%s-matches-%s-near" % (c.prop, kind), "MC_Matches", {"Kind": kind, "Domain": "near"},
                           MATCH_INV if kind == "match" else CMP_INV, binp=binp, workers=12, expect_cases="distinct-500"))
+    # every pair of languages the library's own sources mention (an alias table maps one code onto another)
+    data_env()
+    c.add_model(run_model("%s-matches-%s-dict" % (c.prop, kind), "MC_Matches", {"Kind": kind, "Domain": "dict"},
+                          MATCH_INV if kind == "match" else CMP_INV, binp=binp, workers=8, expect_cases="noninitial"))
 
 
 def m_cmp(c, binp, tier):
@@ -210,7 +214,8 @@ def m_cmp(c, binp, tier):
 
 
 def m_meta(c, binp, tier):
-    runs = [("meta-AB2", {"MaxSteps": 2, "SeedSet": "AB"}), ("meta-D2", {"MaxSteps": 2, "SeedSet": "D"}), ("meta-E2", {"MaxSteps": 2, "SeedSet": "E"})]
+    data_env()      # VERIF_DICT_TAGS
+    runs = [("meta-T2", {"MaxSteps": 2, "SeedSet": "T"}), ("meta-AB2", {"MaxSteps": 2, "SeedSet": "AB"}), ("meta-D2", {"MaxSteps": 2, "SeedSet": "D"}), ("meta-E2", {"MaxSteps": 2, "SeedSet": "E"})]
     if tier == "thorough":
         runs += [("meta-AB3", {"MaxSteps": 3, "SeedSet": "AB"}), ("meta-C2", {"MaxSteps": 2, "SeedSet": "C"}), ("meta-D3", {"MaxSteps": 3, "SeedSet": "D"}),
                  ("meta-E3", {"MaxSteps": 3, "SeedSet": "E"})]
@@ -510,6 +515,13 @@ def C12(tier, seed):
     m_long(c, binp, tier)          # == &str, round trip and Locale agreement for identifiers of every length up to ~300 bytes
     m_matches(c, binp, tier, "cmp")
     m_cmp(c, binp, tier)
+    # "comparing a subtag with a &str is true iff the string equals its canonical text": the subtag cases (every CLDR word,
+    # short strings over the boundary bytes), each compared with its own text and with its neighbours (NUL-padded, re-cased,
+    # extended, shortened)
+    data_env()
+    c.add_model(run_model("%s-sub-cldr-words" % c.prop, "MC_SubCldr", {}, ["WordsAreSubtags", "CanonFix", "EmitCase"], binp=binp, workers=4))
+    c.add_model(run_model("%s-sub-boundary3" % c.prop, "MC_Subtags", dict(MaxLen=3, FullLen=3, Alpha="boundary", Emit=True), SUB_INV, binp=binp, workers=12))
+    c.add_model(run_model("%s-sub-reduced7" % c.prop, "MC_Subtags", dict(MaxLen=7, FullLen=2, Alpha="reduced", Emit=True), SUB_INV, binp=binp, workers=12))
     traces(c, binp, "hist", tier, quick_n=3000)
     macro_values(c, tier)
     return c.finish(rule="the specification's order on language identifiers is PROVED (TLAPS, OrderProofs.tla, all values) to be a strict total order consistent with equality; all pairs over the 108x3 product domain (==, cmp both ways, hash, == &str, field-by-field order incl. transitivity on the spec) and all pairs of operation routes from default() (same logical value along different routes); random pairs from histories",
